@@ -47,6 +47,11 @@ func relURLCases() []relURLCase {
 			}
 		}
 	}
+	// opaque file URLs (no slash after the colon): their path is empty, so nothing - and in particular not the text
+	// after the colon, nor a process stream named by it - may be opened
+	for _, o := range []string{"file:relu/app.log", "FILE:relu/x.log", "file:stdout", "File:stderr", "file:relu%2Fy.log", "file:.."} {
+		out = append(out, relURLCase{raw: o, why: "an opaque file URL has an empty path"})
+	}
 	out = append(out,
 		relURLCase{raw: "relu/app-%zz.log", why: "undecodable escape: not a URL"},
 		relURLCase{raw: "relu/%", why: "undecodable escape: not a URL"},
@@ -166,4 +171,57 @@ func runRooted(col *collector) (evals int, skipped []string) {
 		_ = os.RemoveAll(top)
 	}
 	return evals, skipped
+}
+
+// ---------------------------------------------------------------------------
+// part samefile: one file opened by two Open calls (two cores of a tee on one path, two configurations sharing
+// an output path). Every write through either writer must be in the file afterwards, whole and in the order written.
+func runSameFile(col *collector) (evals int) {
+	dir := filepath.Join(workRoot, "samefile")
+	for i, spell := range [][2]string{{"plain", "plain"}, {"plain", "url"}, {"url", "url"}} {
+		evals++
+		_ = os.RemoveAll(dir)
+		if err := os.MkdirAll(dir, 0o755); err != nil {
+			toolError("mkdir: %v", err)
+		}
+		file := filepath.Join(dir, "shared.log")
+		name := func(how string) string {
+			if how == "url" {
+				return "file://" + file
+			}
+			return file
+		}
+		replay := map[string]any{"part": "open", "index": 930000 + i, "path": file}
+		add := func(key, what string) {
+			col.add(partOpen, 930000+i, key, fmt.Sprintf("two zap.Open calls on %q (%s, %s): %s", file, spell[0], spell[1], what), replay)
+		}
+		w1, c1, err1 := zap.Open(name(spell[0]))
+		w2, c2, err2 := zap.Open(name(spell[1]))
+		if err1 != nil || err2 != nil {
+			add("samefile:open-failed", fmt.Sprintf("errors %v / %v", err1, err2))
+			continue
+		}
+		var want strings.Builder
+		for k := 0; k < 6; k++ {
+			line := fmt.Sprintf("writer-%d line %d %s\n", k%2+1, k, strings.Repeat("x", 3*k))
+			w := w1
+			if k%2 == 1 {
+				w = w2
+			}
+			if n, err := w.Write([]byte(line)); n != len(line) || err != nil {
+				add("samefile:write-failed", fmt.Sprintf("Write returned (%d,%v)", n, err))
+			}
+			want.WriteString(line)
+		}
+		_ = w1.Sync()
+		_ = w2.Sync()
+		c1()
+		c2()
+		got, _ := os.ReadFile(file)
+		if string(got) != want.String() {
+			add("samefile:writes-lost-or-overwritten", fmt.Sprintf("the file holds %q, the two writers wrote %q (a destination receives every write: files are opened for appending)", got, want.String()))
+		}
+	}
+	_ = os.RemoveAll(dir)
+	return evals
 }
